@@ -27,7 +27,6 @@ use common::Env;
 #[global_allocator]
 static GLOBAL: worker::Counting = worker::Counting;
 use mccore::{Ctx, Out, Tier};
-use std::sync::atomic::{AtomicBool, Ordering};
 
 fn level_of(id: &str) -> &'static str {
     match id {
@@ -45,7 +44,7 @@ fn run(id: &str, tier: Tier, seed: u64, only_root: Option<String>, out: &Out) ->
             return 2;
         }
     }
-    let env = Env { ctx: Ctx::new(id, tier, seed, level_of(id)), only_root, machinery_error: AtomicBool::new(false) };
+    let env = Env::new(Ctx::new(id, tier, seed, level_of(id)), only_root);
     env.ctx.assume("trusted base shared with the subject: bls12_381_plus group/pairing/point-compression arithmetic, elliptic_curve hash_to_curve, sha2/sha3");
     env.ctx.assume("the reference implementation refbbs reproduces every fixture under fixture_data/ and fixture_data_blind/ (gate run before this check)");
     match id {
@@ -67,7 +66,7 @@ fn run(id: &str, tier: Tier, seed: u64, only_root: Option<String>, out: &Out) ->
         }
     }
     let code = env.ctx.finish(out);
-    if env.machinery_error.load(Ordering::Relaxed) {
+    if env.has_machinery_error() {
         out.line("MACHINERY-ERROR: reference and semantic oracle disagree (see notes in evidence)");
         return 2;
     }
